@@ -25,7 +25,7 @@ type c10snap struct {
 func runC10(w *World) {
 	w.NoStall = true
 	w.MaxSteps = 60000
-	action := Pick(w, "action", "close", "deletepeer", "close", "accept-error", "double-close", "close", "deletepeer", "close-before-serve")
+	action := Pick(w, "action", "close", "deletepeer", "close", "accept-error", "double-close", "close", "deletepeer", "close-before-serve", "close+deletepeer", "close+deletepeer")
 	w.Sample["action"] = action
 	if action == "close-before-serve" {
 		c10BeforeServe(w)
@@ -203,6 +203,21 @@ func runC10(w *World) {
 		calls = append(calls, e.Close())
 	case "double-close":
 		calls = append(calls, e.Close(), w.CallAsync("Close2", func() error { e.Srv.Close(); return nil }))
+	case "close+deletepeer":
+		// DeletePeer calls racing with the teardown Close performs
+		calls = append(calls, e.Close())
+		for _, cp := range ch.Peers {
+			if cp.Present && w.Draw(2, "alsodelete") == 0 {
+				v := cp.Cur
+				calls = append(calls, w.CallAsync("DeletePeer", func() error {
+					for i, n := 0, w.Draw(40, "deldelay"); i < n; i++ {
+						w.Yield("c10.deldelay")
+					}
+					e.Srv.DeletePeer(v.Cfg.RemoteAddress)
+					return nil
+				}))
+			}
+		}
 	case "deletepeer":
 		v := victim.Cur
 		calls = append(calls, w.CallAsync("DeletePeer", func() error { return e.Srv.DeletePeer(v.Cfg.RemoteAddress) }))
